@@ -9,6 +9,34 @@ for f in glob.glob(os.path.join(V, "harness", "props", "c*.meta.json")):
     if pid in reg.get("registered", []):
         reg["checks"][pid] = json.load(open(f))
 props = [json.loads(l) for l in open(os.path.join(V, "properties.jsonl"))]
+# T-ties regenerated from the source on every run (harness/released.json) that name the property
+import sys
+sys.path.insert(0, os.path.join(V, "harness"))
+import common  # noqa: E402
+
+
+def structural(pid):
+    parts = []
+    mods = [m for m in common.fn_spec_modules() if pid in m.BRIDGE["properties"]]
+    if mods:
+        parts.append("function-translator bridges (harness/translate_fn.py -> Gen/Fn*.lean; Props/FnBridge*.lean prove, for all inputs, "
+                     "regenerated definition = model function) of the groups %s: %d regenerated source slices, %d bridge theorems"
+                     % (", ".join(m.GROUP for m in mods), sum(len(m.SPECS) for m in mods), sum(len(m.BRIDGE["theorems"]) for m in mods)))
+    rel = common.released()
+    if rel.get("excflow"):
+        import excflow
+        g = excflow.BY_PROPERTY.get(pid, [])
+        if g:
+            parts.append("exception-flow instance theorems (harness/translate_exc.py -> Gen/ExcFlow.lean, Gen/ClassTree.lean; analysis proved "
+                         "sound and exact in Lemmas/ExcFlow.lean) of the groups %s" % ", ".join(g))
+    if rel.get("monitor"):
+        import monitor
+        if pid in monitor.BY_PROPERTY:
+            parts.append("monitor-discipline instance theorems (harness/translate_mon.py -> Gen/Monitor.lean; `monitor_sound`: no lost wake-up "
+                         "for every program that passes the syntactic check, under the hypothesis of one application thread per socket and direction)")
+    if pid == "C15":
+        parts.append("lock-discipline program of ContactlessFrontend (harness/translate_lock.py -> Gen/ClfLock.lean)")
+    return parts
 checks, na = [], []
 for p in props:
     pid = p["id"]
@@ -23,9 +51,14 @@ for p in props:
         "evidence_file": "evidence/%s.json" % pid,
         "replay_cmd_template": "./check %s --replay {path}" % pid,
         "engine": "lean4-model+correspondence",
-        "level_claimed": {"category": "proof", "text": r["text"], "design_ref": r.get("design_ref", "DESIGN.md section 5, " + pid)},
-        "level_note": r["note"],
-        "technique": r["technique"],
+        "level_claimed": {"category": "proof", "text": r["text"] + (
+            " Regenerated from /repo on every run and re-checked by the Lean kernel (a source change breaks the obligation): "
+            + "; ".join(structural(pid)) + "." if structural(pid) else ""),
+            "design_ref": r.get("design_ref", "DESIGN.md section 5, " + pid + "; section 11")},
+        "level_note": r["note"] + (" Translator ties: the translators (ast-based, harness/translate_*.py, validated against CPython by "
+                                   "their self-tests) and their assumption / exemption tables (docs/fn_translator.md, docs/exc_flow.md, "
+                                   "docs/monitor.md) are trusted." if structural(pid) else ""),
+        "technique": r["technique"] + (" + source-to-Lean translators with kernel-checked bridge / instance theorems" if structural(pid) and "translat" not in r["technique"] else ""),
     })
 man = {
     "version": 1,
